@@ -462,6 +462,16 @@ def pat_narrow_operands(n, refs, lang, plat):
     return ts[0] != ts[1]
 
 
+def pat_u64_compare(n, refs, lang, plat):
+    """relational comparison with an unsigned 64-bit operand >= 2^63 (cppcheck compares the 64-bit signed images)"""
+    if n.k != 'bin' or n.op not in ('<', '<=', '>', '>='):
+        return False
+    cv = _child_vals(n, refs)
+    if not cv:
+        return False
+    return any(c.unsigned and c.size >= 8 and c.value >= (1 << 63) for c in cv)
+
+
 def pat_lit(n, refs, lang, plat):
     return c09.pat_hex_literal(n, None, lang, plat) or c09.pat_octal_literal(n, None, lang, plat)
 
@@ -475,6 +485,7 @@ FINDING_PATTERNS = [
     ('truth-as-value', 'expr:sizeof(st1)+9:unix64', pat_truth_as_value),
     ('cast-char-negative', "expr:(char)-'\\r':unix64", pat_cast_char_negative),
     ('u64-complement', 'expr:~0xFFFFFFFFFFFFFFFF<=0:unix64', pat_u64_complement),
+    ('u64-compare', 'expr:62-((8L>=~145LLu)+8u):unix64', pat_u64_compare),
     ('narrow-operands', 'expr:(unsignedchar)214:unix64 expr:(unsignedshort)65000:unix64 expr:(signedchar)254:unix64 expr:~0177777:unix32 expr:(signedchar)255:unix32', pat_narrow_operands),
 ]
 
@@ -722,6 +733,7 @@ def witnesses():
         ('unix64', 'c', B('+', I('0x100000001u'), I('0'))),
         ('msp430', 'c', B('+', I('0X100000000Lu'), I('0'))),
         ('unix64', 'c', B('<=', U('~', I('0xFFFFFFFFFFFFFFFF')), I('0'))),
+        ('unix64', 'c', B('-', I('62'), B('+', B('>=', I('8L'), U('~', I('145LLu'))), I('8u')))),
         ('unix64', 'c', B('+', CAST('signed char', I('1')), CAST('unsigned char', I('214')))),
         ('unix64', 'c', B('+', CAST('short', I('1')), CAST('unsigned short', I('65000')))),
         ('unix64', 'c', B('<', CAST('unsigned char', I('1')), CAST('signed char', I('254')))),
